@@ -36,7 +36,14 @@ txt += ("\nLessons that were turned into input classes everywhere they apply: in
         "nearly Hermitian charge blocks), spatial patterns of equal tensors (A-B-A site patterns, impurities), aliasing INSIDE one result (site tensors of a new object\n"
         "sharing one array: single-site edit probe), option values never used internally (non-zero scalar fill of the MPO constructor), counters (more than 100 time steps\n"
         "in one call, many sweeps), arguments beyond a branch cut (|Im dt| > pi), adversarial combinatorial structure (one augmenting path length per Hopcroft-Karp phase),\n"
-        "and classes that had been excused too generously (the over-complete-bond class of C09 was split by a structure classifier).\n\n"
+        "and classes that had been excused too generously (the over-complete-bond class of C09 was split by a structure classifier);\n"
+        "from round 5: values that agree to 6..12 digits without being equal (parameters, chain coefficients, edge coefficients, integrals, singular values: anything compared\n"
+        "with a tolerance), the SAME object passed for two operands (psi - psi, A @ A, bra is ket), in-place LABEL mutation (zero_qnumbers on a result with charged boundary bonds),\n"
+        "single-precision complex and byte-swapped data, labels in narrow integer types and label sequences whose neighbour differences overflow (sortedness tests by np.diff),\n"
+        "work arrays above a size threshold (bonds 150..400 on short or saturated chains, matrices 300..700), time arguments tuned by Newton iteration to a ZERO of a Krylov\n"
+        "coefficient, consistent graphs no constructor emits (parallel edges with one operator id, arbitrary id / edge-list order, twice-added and flipped graphs), option\n"
+        "values in numpy-scalar forms (np.bool_(True), 1, np.str_, np.float64), a positive split tolerance whose last truncation happens to discard nothing, and maps handed to the\n"
+        "Krylov routines as reused output buffers / read-only arrays / the argument itself (which exposed defect F10).\n\n"
         "Note on the repository suite: `test_krylov.py::test_eigh_krylov` fails in about 2 % of runs on the unchanged tree (12 of 600 seeded replays of its body, the\n"
         "same number before and after fix `3c1fa1a`): its tolerance on the second Ritz value is statistical. It is unrelated to any change made here.\n")
 d = open('/verif/DESIGN.md').read()
